@@ -23,6 +23,8 @@ func main() {
 			code = cmdUnit(os.Args[2:])
 		case "check":
 			code = cmdCheck(os.Args[2:])
+		case "replay":
+			code = cmdReplay(os.Args[2:])
 		case "list":
 			code = cmdList(os.Args[2:])
 		default:
@@ -136,7 +138,3 @@ func writeJSON(path string, v interface{}) error {
 	return os.Rename(tmp, path)
 }
 
-func cmdCheck(args []string) int {
-	fmt.Fprintln(os.Stderr, "not implemented yet")
-	return 2
-}
